@@ -361,7 +361,9 @@ func c01Oracle(c *Ctx, o *execOutcome, v *Verdict, free bool) *Verdict {
 			c.Rep.Discard("no-return(C03)")
 			continue
 		}
-		// (a) order: for every model edge P->Q, exit(P) precedes enter(Q)
+		// (a) order: for every model edge P->Q, exit(P) precedes enter(Q). In free-running mode the
+		// order of events comes from unsynchronised clock readings of different threads, which is
+		// no proof of anything: there the value oracle (b) and the race detector decide.
 		exited := map[int]bool{}
 		valDone := map[int]bool{}
 		prodOf := map[int][]int{}
@@ -377,6 +379,9 @@ func c01Oracle(c *Ctx, o *execOutcome, v *Verdict, free bool) *Verdict {
 			case "val":
 				valDone[e.P] = true
 			case "enter":
+				if free {
+					continue
+				}
 				for _, p := range prodOf[e.P] {
 					if !exited[p] && !valDone[p] {
 						return o.failf(v, ex, "order", fmt.Sprintf("consumer before producer"), "provider %d entered before its producer %d returned", e.P, p)
